@@ -143,6 +143,40 @@ def _strip_rechunk(node):
     return n
 
 
+def _policy_dependent(node):
+    """True iff the chunks ``node`` ADVERTISES are themselves a unification result, i.e. some
+    multi-operand blockwise node in its subtree has operands whose layouts differ on a shared
+    (non-broadcast) axis.  Only then can the advertised layout have been decided under another
+    policy than the one in effect now (finding F19); the chunks of leaves and of chains over one
+    operand do not depend on any unify setting."""
+    from dask_array._expr import ArrayExpr
+
+    for n in node.walk():
+        args = getattr(n, "elemwise_args", None)
+        if args is None:
+            args = getattr(n, "args", None)
+            if args is None or not hasattr(n, "out_ind"):
+                continue
+            args = args[::2] if isinstance(args, (list, tuple)) else ()
+        arrs = [a for a in args if isinstance(a, ArrayExpr) and a.ndim > 0]
+        if len(arrs) < 2:
+            continue
+        try:
+            nd = max(a.ndim for a in arrs)
+            for ax in range(nd):
+                lay = set()
+                for a in arrs:
+                    i = ax - (nd - a.ndim)
+                    if i < 0 or a.shape[i] == 1:
+                        continue
+                    lay.add(tuple(a.chunks[i]))
+                if len(lay) > 1:
+                    return True
+        except Exception:  # noqa: BLE001
+            return True
+    return False
+
+
 def check_pair(raw, low, policy, limit, stats, where, depth=0):
     from dask_array._blockwise import Elemwise
     from dask_array._expr import ArrayExpr
@@ -177,7 +211,8 @@ def check_pair(raw, low, policy, limit, stats, where, depth=0):
                 if not _bounds(r.chunks[ax]) <= _bounds(l.chunks[ax]):
                     raise Violation(ID, "refine-merged-blocks",
                                     f"{where}: policy 'refine' is in effect but operand {i} of {low._name} went from chunks "
-                                    f"{r.chunks} to {l.chunks}: blocks were merged on axis {ax}")
+                                    f"{r.chunks} to {l.chunks}: blocks were merged on axis {ax}",
+                                    info={"operand_policy_dependent": _policy_dependent(r)})
         # (3) no operand block grows beyond max(limit, own largest block)
         if limit is not None:
             own = _max_block_bytes(r)
@@ -185,7 +220,8 @@ def check_pair(raw, low, policy, limit, stats, where, depth=0):
             if new > max(limit, own):
                 raise Violation(ID, "block-inflated-beyond-limit",
                                 f"{where}: operand {i} of {low._name} grew from {own} B blocks ({r.chunks}) to {new} B "
-                                f"({l.chunks}) with unify-chunks-limit={limit} B under policy {policy}")
+                                f"({l.chunks}) with unify-chunks-limit={limit} B under policy {policy}",
+                                info={"operand_policy_dependent": _policy_dependent(r)})
         check_pair(r, _strip_rechunk(l), policy, limit, stats, where, depth + 1)
 
 
@@ -272,6 +308,11 @@ def candidates(case):
 def _pre_f19(case, result):
     """A unify-chunks policy/limit flip lies between a build and a later materialisation/compute, i.e.
     some expression is materialised under another configuration than it was constructed under."""
+    if result.get("cls") in ("refine-merged-blocks", "block-inflated-beyond-limit") and \
+            (result.get("info") or {}).get("operand_policy_dependent") is False:
+        # the operand's advertised chunks cannot depend on any unify setting (a leaf or a chain over
+        # one operand): F19 -- a layout ADVERTISED under another policy -- cannot explain it
+        return False
     seen_build = False
     flipped_after_build = False
     for e in case["history"]:
